@@ -6,11 +6,14 @@ about arbitrary `Body`.
 
     stmt ::= (log n) | (tok n) | (fut k) | (bare) | (call stmt*)
            | (try (stmt*) (catch K stmt*)* (finally stmt*)) | (reraise) | (ret v) | (raise E)
+           | (cset i v) | (cget i) | (creset i)
 
 `(tok n)` = `L.append(("r", await Tok(n)))`: yields `tok n`, logs what comes back.
 `(fut k)` = await of a real asyncio Future: yields `fut k`; the driver resolves it with 100+k
 before the next send, so the value received is 100+k.  `(bare)` = `await sleep0()`.
 `(call …)` = `L.append(("r", await sub()))` with `sub` a nested `async def`.
+`(cset i v)` = `TOKS.append((i, CV[i].set(v)))` on ContextVar i (default 0); `(cget i)` logs its value;
+`(creset i)` resets the newest outstanding token of variable i (no-op if none).
 A handler logs the exception it caught.  `(reraise)` = bare `raise` directly in a handler.
 -/
 import Asynkit.Model.Proto
@@ -49,6 +52,9 @@ inductive Stmt where
   | reraise
   | ret (v : Val)
   | raise (e : Exc)
+  | cset (i : Nat) (v : Val)
+  | cget (i : Nat)
+  | creset (i : Nat)
 deriving Inhabited
 
 abbrev Prog := List Stmt
@@ -57,6 +63,7 @@ inductive Ev where
   | log (n : Nat)
   | recv (v : Val)
   | caught (e : Exc)
+  | cv (i : Nat) (v : Val)
 deriving Repr, DecidableEq, Inhabited
 
 inductive Sig where
@@ -84,7 +91,31 @@ structure MState where
   stack : List Frame
   log : List Ev
   wait : Wait
+  cv : List (Nat × Val) := []       -- current context: ContextVar index ↦ value (absent = default 0)
+  toks : List (Nat × Val) := []     -- outstanding tokens, newest first: (variable, old value)
 deriving Inhabited
+
+def cvGet (cv : List (Nat × Val)) (i : Nat) : Val :=
+  match cv.find? (·.1 == i) with
+  | some (_, v) => v
+  | none => 0
+
+def cvSet (cv : List (Nat × Val)) (i : Nat) (v : Val) : List (Nat × Val) :=
+  (i, v) :: cv.filter (·.1 != i)
+
+/-- remove the newest token of variable `i`; returns its old value -/
+def popTok (i : Nat) : List (Nat × Val) → Option (Val × List (Nat × Val))
+  | [] => none
+  | (j, old) :: ts =>
+    if j == i then some (old, ts)
+    else match popTok i ts with
+      | some (o, ts') => some (o, (j, old) :: ts')
+      | none => none
+
+/-- what the caller sees after resetting every outstanding token, newest first -/
+def resetAll (cv : List (Nat × Val)) : List (Nat × Val) → List (Nat × Val)
+  | [] => cv
+  | (i, old) :: ts => resetAll (cvSet cv i old) ts
 
 def findHandler (e : Exc) : List (Catch × List Stmt) → Option (List Stmt)
   | [] => none
@@ -115,6 +146,13 @@ def exec : Nat → MState → Sig → MState × Out
         | none => exec fuel { st with code := [] } (.raising (.runtime 0))
       | .ret v => exec fuel { st with code := [] } (.returning v)
       | .raise e => exec fuel { st with code := [] } (.raising e)
+      | .cset i v =>
+        exec fuel { st with code := rest, cv := cvSet st.cv i v, toks := (i, cvGet st.cv i) :: st.toks } .normal
+      | .cget i => exec fuel { st with code := rest, log := st.log ++ [.cv i (cvGet st.cv i)] } .normal
+      | .creset i =>
+        match popTok i st.toks with
+        | some (old, ts) => exec fuel { st with code := rest, cv := cvSet st.cv i old, toks := ts } .normal
+        | none => exec fuel { st with code := rest } .normal
     | [] =>
       match st.stack with
       | [] => (st, .ret 0)
@@ -165,23 +203,23 @@ def segments : List Frame → List (List Frame)
     RuntimeError("coroutine ignored GeneratorExit") when it yielded; that sub-coroutine is then
     dropped and finalised (`fin`: one more GeneratorExit, outcome discarded).  The outermost
     level's outcome is returned raw (its own envelope post-processes it). -/
-def closeSegs (fuel : Nat) (fin : MState → MState) (log : List Ev) (sig : Exc) :
+def closeSegs (fuel : Nat) (fin : MState → MState) (st : MState) (sig : Exc) :
     List (List Frame) → MState × Out
-  | [] => ({ code := [], stack := [], log := log, wait := .none }, .raise sig)
-  | [outer] => exec fuel { code := [], stack := outer, log := log, wait := .none } (.raising sig)
+  | [] => ({ st with code := [], stack := [], wait := .none }, .raise sig)
+  | [outer] => exec fuel { st with code := [], stack := outer, wait := .none } (.raising sig)
   | seg :: rest =>
-    let r := exec fuel { code := [], stack := seg, log := log, wait := .none } (.raising sig)
+    let r := exec fuel { st with code := [], stack := seg, wait := .none } (.raising sig)
     match r.2 with
-    | .yield _ => closeSegs fuel fin (fin r.1).log (.runtime rtIgnoredGenExit) rest
-    | .ret _ => closeSegs fuel fin r.1.log .genExit rest
-    | .raise .genExit => closeSegs fuel fin r.1.log .genExit rest
-    | .raise (.stopIter _) => closeSegs fuel fin r.1.log (.runtime rtRaisedStopIter) rest
-    | .raise e => closeSegs fuel fin r.1.log e rest
+    | .yield _ => closeSegs fuel fin (fin r.1) (.runtime rtIgnoredGenExit) rest
+    | .ret _ => closeSegs fuel fin r.1 .genExit rest
+    | .raise .genExit => closeSegs fuel fin r.1 .genExit rest
+    | .raise (.stopIter _) => closeSegs fuel fin r.1 (.runtime rtRaisedStopIter) rest
+    | .raise e => closeSegs fuel fin r.1 e rest
 
 def closeState : Nat → MState → MState × Out
   | 0, st => exec fuel0 { st with code := [], wait := .none } (.raising .genExit)
   | k + 1, st =>
-    closeSegs fuel0 (fun s => (closeState k s).1) st.log .genExit (segments st.stack)
+    closeSegs fuel0 (fun s => (closeState k s).1) st .genExit (segments st.stack)
 
 def interp (p : Prog) : Body where
   σ := MState
